@@ -60,6 +60,27 @@ func genC06(t *simrt.Tape, tier string) interface{} {
 		p.Faults = benignFaults(t, 800)
 		p.Faults.Capacity = 0
 	}
+	if t.Draw(4) == 0 {
+		// senders queued on the send mutex at the instant the endpoint ends the session itself:
+		// back-to-back sends from several tasks, a peer that takes the envelopes slowly (no queue
+		// in process, a small window behind a short stall on a socket), the end in the middle
+		p.Role = "server"
+		p.Script = []Step{{Op: "auto"}, {Op: "auto"}, {Op: "auto", Choice: 1}}
+		p.EndMode = 0
+		p.EndAtMs = []int{1, 2, 5, 30}[t.Draw(4)]
+		p.Senders = 2 + t.Draw(2)
+		p.Attempts = 6 + t.Draw(20)
+		p.GapMs = [][]int{{0}, {0, 1}, {0, 0, 1}}[t.Draw(3)]
+		p.StepGapMs = 0
+		p.Conf.AuthOut = []int{0}
+		if p.Conf.Transport == "inproc" {
+			p.Conf.Buf = t.Draw(2)
+		} else {
+			p.Faults = NoFaults()
+			p.Faults.Capacity = []int{16, 64, 512}[t.Draw(3)]
+			p.Faults.Stalls = []StallS{{AfterBytes: int64(300 + t.Draw(1500)), ForMs: []int{3, 40, 700}[t.Draw(3)]}}
+		}
+	}
 	return p
 }
 
